@@ -741,6 +741,28 @@ func keyContentRule(w *World, r *Report, rule string) {
 			if !ok {
 				continue
 			}
+			// the size of the table built so far says how many *different* keys came, not how many were valid
+			isMapLen := func(v ssa.Value) bool {
+				c, ok := v.(*ssa.Call)
+				if !ok {
+					return false
+				}
+				bi, ok := c.Call.Value.(*ssa.Builtin)
+				if !ok || bi.Name() != "len" {
+					return false
+				}
+				_, isMap := c.Call.Args[0].Type().Underlying().(*types.Map)
+				return isMap
+			}
+			if isMapLen(bo.X) || isMapLen(bo.Y) {
+				for _, rt := range errorReturns(fn) {
+					ret := rt[0].(*ssa.Return)
+					ev, _ := rt[2].(ssa.Value)
+					if ev != nil && !isNilConst(ev) && isErrorType(ev.Type()) && (edgeDominates(d, 0, ret.Block()) || edgeDominates(d, 1, ret.Block())) {
+						r.bad(rule, fn, "items judged by the size of the table built", bo.Pos(), "an error is returned depending on "+describeVal(nil, bo, 0)+": a repeated key or member makes the table smaller than the item list although every item is valid, so (set [:a :a]) or a literal with a repeated member is refused")
+					}
+				}
+			}
 			_, cx := bo.X.(*ssa.Const)
 			_, cy := bo.Y.(*ssa.Const)
 			content := (isStr(bo.X) && cy) || (isStr(bo.Y) && cx) || (isStrLen(bo.X) && cy) || (isStrLen(bo.Y) && cx)
@@ -843,7 +865,7 @@ func peekNextRule(w *World, r *Report, rule string) {
 // it hands the elements to. An error of its own making refuses a well-bracketed collection for what is in
 // it - and whatever it refuses, the printer can have written.
 func collectionReaderErrorsRule(w *World, r *Report, rule string, readers []*ssa.Function) {
-	r.rule(rule, "the reader functions for bracketed collections (list, vector, hash-map, set) return, when they fail, the error of the function they called (the bracket matcher, the collection builder of package types), never an error constructed on the spot: no collection the printer can write is refused by its reader for its contents")
+	r.rule(rule, "the reader functions for bracketed collections (list, vector, hash-map, set) return, when they fail, the error of the function they called (the bracket matcher, the collection builder of package types), never an error constructed on the spot (other than one decided by element counts alone): no collection the printer can write is refused by its reader for its contents")
 	n := 0
 	for _, fn := range readers {
 		// (the reader for constructor forms «name …» applies a function it looks up: not a data collection)
@@ -885,6 +907,26 @@ func collectionReaderErrorsRule(w *World, r *Report, rule string, readers []*ssa
 						passed = false
 					}
 				}
+			}
+			if !passed {
+				// an error of its own is still no judgement on the contents when it is decided by counts alone
+				// (an odd number of forms in a map literal, say)
+				byCount, nc := true, 0
+				for _, a := range knownConds(ret.Block()) {
+					bo, ok := a.v.(*ssa.BinOp)
+					if !ok {
+						byCount = false
+						continue
+					}
+					if isErrorType(bo.X.Type()) && isNilConst(bo.Y) {
+						continue // the test of a callee's error
+					}
+					nc++
+					if !isIntType(bo.X.Type()) || !isIntType(bo.Y.Type()) {
+						byCount = false
+					}
+				}
+				passed = byCount && nc > 0
 			}
 			r.check(passed, rule, fn, "error answered by a collection reader", ret.Pos(), "the error of the function it called", "the reader of a bracketed collection makes an error of its own ("+describeVal(nil, ev, 0)+"): a collection whose brackets match is refused because of its elements, so a value the printer wrote cannot be read back")
 		}
@@ -974,5 +1016,240 @@ func textVerdictRule(w *World, r *Report, rule string) {
 			}
 		}
 	}
+	// the root package's READ adds no verdict of its own: what it answers is what the reader's entry point answered
+	if rd := w.Fn("", "READ"); rd != nil {
+		for _, rt := range errorReturns(rd) {
+			ret := rt[0].(*ssa.Return)
+			ev, _ := rt[2].(ssa.Value)
+			if ev == nil || isNilConst(ev) {
+				continue
+			}
+			n++
+			passed := false
+			if ex, ok := ev.(*ssa.Extract); ok {
+				if c, ok := ex.Tuple.(*ssa.Call); ok && c.Call.StaticCallee() == rs {
+					passed = true
+				}
+			}
+			r.check(passed, rule, rd, "error answered by READ", ret.Pos(), "the error of reader.Read_str", "READ makes an error of its own ("+describeVal(nil, ev, 0)+") instead of answering what the reader answered: a text is refused by a test outside the tokenizer and parser (for the characters it contains, say), so a value PRINT wrote cannot be read back")
+		}
+	}
 	r.floor(rule, "error returns of Read_str", n, 3)
+}
+
+// printEntryRule: PRINT is the printer: what it returns is what printer.Pr_str made of its argument in
+// readable mode - all of it. (The preamble writer puts PRINT's text on a line the reader must get back the
+// value from; a text cut at a size limit, or decorated, is no longer the value's text.)
+func printEntryRule(w *World, r *Report, rule string) {
+	r.rule(rule, "every return of the root package's PRINT is the result of printer.Pr_str applied to PRINT's own argument in readable mode, unchanged: nothing is cut off, appended or replaced between the printer and the caller")
+	pf, ps := w.Fn("", "PRINT"), w.Fn("printer", "Pr_str")
+	if pf == nil || ps == nil {
+		r.undecided(rule, nil, "PRINT / printer.Pr_str", token.NoPos, "function no longer resolves")
+		return
+	}
+	n := 0
+	for _, b := range pf.Blocks {
+		ret, ok := b.Instrs[len(b.Instrs)-1].(*ssa.Return)
+		if !ok || len(ret.Results) != 1 || b == pf.Recover {
+			continue
+		}
+		n++
+		v := resolveRet(ret.Results[0])
+		okV := false
+		if c, isC := v.(*ssa.Call); isC && c.Call.StaticCallee() == ps && len(c.Call.Args) == 2 && unboxed(c.Call.Args[0]) == ssa.Value(pf.Params[0]) {
+			if k, isK := c.Call.Args[1].(*ssa.Const); isK && k.Value != nil && k.Value.String() == "true" {
+				okV = true
+			}
+		}
+		r.check(okV, rule, pf, "text returned by PRINT", ret.Pos(), "Pr_str(argument, true) itself", "PRINT returns "+describeVal(nil, v, 0)+" instead of the printer's text for its argument: a value whose text is altered on the way out (cut at a size limit, say) cannot be read back, and a placeholder that carries it silently reads as something else")
+	}
+	r.floor(rule, "returns of PRINT", n, 1)
+}
+
+// atomLastRule: a token is an atom only when the dispatcher has found it to be nothing else: the atom reader
+// is called from the dispatcher alone, on the path where the token's text has been compared with every
+// opening bracket and matched none. (A short cut that sends "identifier-like" tokens straight to the atom
+// reader swallows `#{`, which the scanner classes as an identifier, as a symbol: the set's closer is then
+// matched against the enclosing bracket.)
+func atomLastRule(w *World, r *Report, rule string) {
+	r.rule(rule, "every call of the atom reader is made by the dispatcher (read_form), in a block where the token's text is known to differ from each of the opening brackets ( [ { #{ : no other function of the reader decides that a token is an atom")
+	ra, rf := w.Fn("reader", "read_atom"), w.Fn("reader", "read_form")
+	if ra == nil || rf == nil {
+		r.undecided(rule, nil, "read_atom / read_form", token.NoPos, "function no longer resolves")
+		return
+	}
+	n := 0
+	for _, fn := range w.pkgFuncs("reader") {
+		for _, c := range staticCallsTo(fn, ra) {
+			n++
+			if fn != rf {
+				r.bad(rule, fn, "call of the atom reader outside the dispatcher", c.Pos(), w.fnName(fn)+" takes a token for an atom without the dispatcher having looked at it: a token that opens a collection (the scanner classes #{ as an identifier) is read as a symbol, and the bracket structure of the text is judged wrongly")
+				continue
+			}
+			excluded := map[string]bool{}
+			for _, a := range knownConds(c.Block()) {
+				if _, s, ok := strEq(a.v); ok && !a.pol {
+					excluded[s] = true
+				}
+			}
+			var missing []string
+			for _, op := range []string{"(", "[", "{", "#{"} {
+				if !excluded[op] {
+					missing = append(missing, op)
+				}
+			}
+			r.check(len(missing) == 0, rule, fn, "call of the atom reader", c.Pos(), "after the token was compared with every opening bracket", "the atom reader is called where the token can still be "+strings.Join(missing, " ")+": an opening bracket is read as a symbol")
+		}
+	}
+	r.floor(rule, "calls of the atom reader", n, 1)
+}
+
+// valueErrorRule: the preamble's values are texts of their own. The error of reading one of them says nothing
+// about the text that carries the preamble: it is never what READWithPreamble answers (an unfinished value
+// would make a complete program "incomplete", with a closer no amount of typing can supply).
+func valueErrorRule(w *World, r *Report, rule string) {
+	r.rule(rule, "the error of the per-line read of a preamble value (the call of Read_str without a placeholder table) does not flow into a result of READWithPreamble: the verdict on a text - complete, incomplete, malformed - comes from reading its code part only")
+	rwp, rs := w.Fn("", "READWithPreamble"), w.Fn("reader", "Read_str")
+	if rwp == nil || rs == nil {
+		r.undecided(rule, nil, "READWithPreamble / Read_str", token.NoPos, "function no longer resolves")
+		return
+	}
+	n := 0
+	for _, fn := range w.withPkgHelpers(rwp) {
+		for _, c := range staticCallsTo(fn, rs) {
+			if len(c.Call.Args) < 3 || !isNilConst(c.Call.Args[2]) {
+				continue
+			}
+			n++
+			errEx := extractOf(c, 1)
+			leaks := false
+			seen := map[ssa.Value]bool{}
+			var follow func(v ssa.Value, depth int)
+			follow = func(v ssa.Value, depth int) {
+				if v == nil || seen[v] || depth > 5 || v.Referrers() == nil {
+					return
+				}
+				seen[v] = true
+				for _, ref := range *v.Referrers() {
+					switch u := ref.(type) {
+					case *ssa.Return:
+						leaks = true
+					case *ssa.Store:
+						if u.Val == v {
+							leaks = true
+						}
+					case *ssa.Phi:
+						follow(u, depth+1)
+					case *ssa.MakeInterface:
+						follow(u, depth+1)
+					case *ssa.ChangeInterface:
+						follow(u, depth+1)
+					case *ssa.Call:
+						// handed to an error constructor whose result is returned
+						follow(u, depth+1)
+					}
+				}
+			}
+			if errEx != nil {
+				follow(errEx, 0)
+			}
+			r.check(!leaks, rule, fn, "error of reading a preamble value", c.Pos(), "not handed to the caller", "the error of reading one placeholder value is returned as the answer for the whole text: an unfinished value makes a complete program 'expected …, got EOF' (the REPL waits for input that cannot help), and the closer named belongs to the value, not to the code")
+		}
+	}
+	r.floor(rule, "per-line reads of preamble values", n, 1)
+}
+
+// goQuotedSourceRule: program text that Go code puts together (the (load-file "…") form the command line
+// builds around a file name) is read by the lisp reader, whose string escapes are \\ \" and \n only. Text
+// quoted the Go way (%q, %#v, strconv.Quote) also writes \t, \a,   … which the reader leaves as they
+// are: a program in a file with such a name is not found, while the same program by any other route runs.
+func goQuotedSourceRule(w *World, r *Report, rule string) {
+	r.rule(rule, "no (load-file …) form handed to READ, REPL, READWithPreamble or Read_str by the module's own Go code (the file route of the command line) is assembled with Go-syntax quoting (%q, %#v, strconv.Quote / AppendQuote): the reader understands only the escapes its own printer writes")
+	targets := map[*ssa.Function]bool{}
+	for _, n := range []string{"READ", "REPL", "READWithPreamble", "REPLWithPreamble", "ReadEvalWithPreamble"} {
+		if f := w.Fn("", n); f != nil {
+			targets[f] = true
+		}
+	}
+	if f := w.Fn("reader", "Read_str"); f != nil {
+		targets[f] = true
+	}
+	var goQuoted func(v ssa.Value, depth int, seen map[ssa.Value]bool) string
+	goQuoted = func(v ssa.Value, depth int, seen map[ssa.Value]bool) string {
+		if v == nil || seen[v] || depth > 6 {
+			return ""
+		}
+		seen[v] = true
+		switch x := v.(type) {
+		case *ssa.BinOp:
+			if s := goQuoted(x.X, depth+1, seen); s != "" {
+				return s
+			}
+			return goQuoted(x.Y, depth+1, seen)
+		case *ssa.Phi:
+			for _, ed := range x.Edges {
+				if s := goQuoted(ed, depth+1, seen); s != "" {
+					return s
+				}
+			}
+		case *ssa.Call:
+			sc := x.Call.StaticCallee()
+			if sc == nil {
+				return ""
+			}
+			switch fnPkgPath(sc) + "." + sc.Name() {
+			case "strconv.Quote", "strconv.QuoteToASCII", "strconv.AppendQuote", "strconv.QuoteToGraphic":
+				return "strconv." + sc.Name()
+			case "fmt.Sprintf", "fmt.Sprint", "fmt.Sprintln":
+				if len(x.Call.Args) > 0 {
+					if f, ok := constString(x.Call.Args[0]); ok && (strings.Contains(f, "%q") || strings.Contains(f, "%#v") || strings.Contains(f, "%+q")) {
+						return "fmt." + sc.Name() + " with " + f
+					}
+				}
+				return ""
+			}
+			if inModule(sc) && len(sc.Blocks) > 0 {
+				for _, b := range sc.Blocks {
+					if ret, ok := b.Instrs[len(b.Instrs)-1].(*ssa.Return); ok && len(ret.Results) > 0 {
+						if s := goQuoted(ret.Results[0], depth+1, seen); s != "" {
+							return s
+						}
+					}
+				}
+			}
+		}
+		return ""
+	}
+	n := 0
+	for _, fn := range w.Funcs {
+		if isTestFunc(w, fn) || !inModule(fn) {
+			continue
+		}
+		for _, b := range fn.Blocks {
+			for _, in := range b.Instrs {
+				c, ok := in.(*ssa.Call)
+				if !ok || !targets[c.Call.StaticCallee()] {
+					continue
+				}
+				for _, a := range c.Call.Args {
+					if !isStringVal(a) {
+						continue
+					}
+					n++
+					if how := goQuoted(a, 0, map[ssa.Value]bool{}); how != "" {
+						// the file route: the text is the form that loads the program's file (other generated
+						// definitions, such as the test parameters of the command line, are not program text)
+						if !strings.Contains(how, "(load-file") {
+							r.add(rule, fn, "generated definition quoted the Go way", c.Pos(), "info", "not a load form ("+how+"): outside the file route")
+							break
+						}
+						r.bad(rule, fn, "program text quoted the Go way", c.Pos(), "the text handed to "+c.Call.StaticCallee().Name()+" contains a piece quoted with "+how+": Go writes tabs, control and non-printing characters as escapes the lisp reader does not undo, so the program meant (a file of that name, say) is not the program read")
+					}
+					break
+				}
+			}
+		}
+	}
+	r.add(rule, nil, "texts handed to the reading entry points by Go code of the module", token.NoPos, "ok", fmt.Sprintf("%d examined", n))
+	r.floor(rule, "texts handed to the reading entry points", n, 5)
 }
